@@ -507,4 +507,71 @@ theorem exists_enabled {s : St} (hI : Inv s) (hN : Nest s) :
       exact ⟨u, by omega, r⟩
     · exact ⟨t, Nat.le_refl _, hb, hd, step_isSome (hI.nocrash t) hd⟩
 
+theorem isDoneB_iff (s : St) (t : Tid) : isDoneB s t = true ↔ isDone s t := by
+  simp [isDoneB, isDone, List.isEmpty_iff]
+
+theorem blockedB_iff (s : St) (p : Tid) : blockedB s p = true ↔ blocked s p := by
+  unfold blockedB blocked
+  cases hw : s.wait p with
+  | none => simp
+  | some c =>
+    have := isDoneB_iff s c
+    cases hd : isDoneB s c <;> simp_all
+
+theorem reachable_exec {n : Nat} {prog : Tid → List Msg} {s s' : St} (h : Reachable n prog s) (e : Ev)
+    (he : exec s e = some s') : Reachable n prog s' := by
+  cases e with
+  | run t =>
+    simp only [exec] at he
+    split at he
+    · cases he
+    next hb => exact Reachable.step t h (fun hbl => hb ((blockedB_iff s t).2 hbl)) he
+  | reent p m =>
+    simp only [exec] at he
+    split at he
+    · cases he
+    next hb =>
+      split at he
+      next hp => cases he; exact Reachable.reenter p m h (fun hbl => hb ((blockedB_iff s p).2 hbl)) hp
+      · cases he
+
+theorem reachable_execAll {n : Nat} {prog : Tid → List Msg} (l : List Ev) :
+    ∀ {s s' : St}, Reachable n prog s → execAll s l = some s' → Reachable n prog s' := by
+  induction l with
+  | nil => intro s s' h he; cases he; exact h
+  | cons e l ih =>
+    intro s s' h he
+    simp only [execAll] at he
+    split at he
+    · cases he
+    next s1 h1 => exact ih (reachable_exec h e h1) he
+
+/-- only the stream writes of `Channel.send` touch the wire -/
+theorem step_wire {s s' : St} {t : Tid} (hs : step s t = some s') : s'.wire = s.wire ∨ s.pc t = .write := by
+  unfold SendQ.step at hs
+  split at hs
+  next hpc => split at hs <;> cases hs; exact Or.inl rfl
+  next m hpc => cases hs; exact Or.inl rfl
+  next hpc => split at hs <;> cases hs <;> exact Or.inl rfl
+  next hpc => split at hs <;> cases hs <;> exact Or.inl rfl
+  next hpc => split at hs <;> cases hs <;> exact Or.inl rfl
+  next hpc => split at hs <;> cases hs <;> exact Or.inl rfl
+  next hpc => exact Or.inr hpc
+  next hpc => split at hs <;> cases hs <;> exact Or.inl rfl
+  next hpc => cases hs
+
+/-- the initial threads keep the programs they were given -/
+theorem reachable_prog {n : Nat} {prog : Tid → List Msg} {s : St} (h : Reachable n prog s) :
+    n ≤ s.next ∧ ∀ t, t < n → s.prog t = prog t := by
+  induction h with
+  | init => exact ⟨Nat.le_refl _, fun t ht => by simp [SendQ.init, ht]⟩
+  | step t _ _ hs ih =>
+    obtain ⟨_, hn, hp, _⟩ := step_frame hs
+    rw [hn, hp]; exact ih
+  | reenter p m _ _ _ ih =>
+    refine ⟨by simp only [SendQ.reenter]; omega, fun t ht => ?_⟩
+    have : t ≠ _ := Nat.ne_of_lt (Nat.lt_of_lt_of_le ht ih.1)
+    simp only [SendQ.reenter, this, if_false]
+    exact ih.2 t ht
+
 end Rpyc.Conc.SendQ
